@@ -38,6 +38,7 @@ package sonic
 //@   requires n <= 1<<46 && cap(b.data) <= 1<<46
 //@   ensures [inv] bbInv(b) && b.si == old(b.si) && b.ri == old(b.ri) && b.wi == old(b.wi)
 //@   ensures [room] n <= cap(b.data) - b.wi
+//@   ensures [bounded] cap(b.data) <= max(old(cap(b.data)), 4*(old(cap(b.data)) + max(n, 0)) + 4096)
 //@   ensures [content] forall j :: 0 <= j && j < b.wi ==> b.data[j] == old(b.data[j])
 //@   ensures [stable] n <= old(cap(b.data) - b.wi) ==> ptr(b.data) == old(ptr(b.data)) && cap(b.data) == old(cap(b.data))
 //@   ensures [where] (ptr(b.data) == old(ptr(b.data)) && cap(b.data) == old(cap(b.data))) || fresh(b.data)
@@ -139,6 +140,7 @@ package sonic
 
 //@ func (*ByteBuffer).Write
 //@   prop C09
+//@   ensures [stable] len(bb) <= old(cap(b.data) - b.wi) ==> ptr(b.data) == old(ptr(b.data)) && cap(b.data) == old(cap(b.data))
 //@   ensures [where] (ptr(b.data) == old(ptr(b.data)) && cap(b.data) == old(cap(b.data))) || fresh(b.data)
 //@   requires bbInv(b)
 //@   requires cap(b.data) <= 1<<46 && len(bb) <= 1<<46
